@@ -263,7 +263,7 @@ def _nonull(x):
     return x
 
 
-def validate_traces(traces, module, props, workers=8, timeout=900, extra_constants=None, wd=None, batch=None, heap="8g", max_steps=60000):
+def validate_traces(traces, module, props, workers=8, timeout=900, extra_constants=None, wd=None, batch=None, heap="8g", max_steps=25000):
     """Validate a list of JSON-able traces with the trace spec <module> (a module of spec/ that
     reads IOEnv.TRACE_FILE and has constants Props).  Returns dict(viol=[...], drift=[...],
     states=..., expected_states=..., ok_consumed=bool)."""
